@@ -105,8 +105,44 @@ def isInfix (lit s : Str) : Bool :=
   | [] => lit.isEmpty
   | c :: cs => lit.isPrefixOf (c :: cs) || isInfix lit cs
 
+def decItem (f : String) : Option Item :=
+  if f = "#" then some .other else (decStr f).map .str
+
+/-- a deny-list section as written: "~" absent, "!" not iterable, "s:<hex>" a bare string, "l:<items by ';'>" ("l:_" = []) -/
+def decSect (f : String) : Option Sect :=
+  match f.splitOn ":" with
+  | ["~"] => some .absent
+  | ["!"] => some .noniter
+  | ["s", x] => (decStr x).map .str
+  | ["l", r] =>
+    if r = "_" then some (.list []) else
+    ((r.splitOn ";").foldr (fun p acc => match acc, decItem p with
+      | some l, some x => some (x :: l)
+      | _, _ => none) (some [])).map .list
+  | _ => none
+
 def handle (fs : List String) : String :=
   match fs with
+  | ["vchk", kind, found, host, filterable, hasFilters, cand, deny, contained, readable] =>
+    match decBool found, decBool host, decBool filterable, decBool hasFilters, decStr cand, decStrs "," deny,
+          decBool contained, decBool readable with
+    | some found, some host, some filterable, some hasFilters, some cand, some deny, some contained, some readable =>
+      let i : VIn := { found := found, host := host, filterable := filterable, hasFilters := hasFilters,
+                       allowed := allow deny cand, contained := contained, readable := readable }
+      let cs := if kind = "file" then some fileChecks else if kind = "cmd" then some cmdChecks else none
+      match cs with
+      | none => "bad-op"
+      | some cs => match runChecks i cs with
+        | .ok _ => "ok"
+        | .error e => showErrExact e
+    | _, _, _, _, _, _, _, _ => "bad-op"
+  | ["blseq", files, cmds, comps, specs, known] =>
+    match decSect files, decSect cmds, decSect comps, decStrs "," specs, decStrs "," known with
+    | some files, some cmds, some comps, some specs, some known =>
+      match applyBlacklistSeq (fun s => specs.contains s) (fun s => known.contains s) files cmds comps with
+      | .error _ => "abort"
+      | .ok d => "ok " ++ encList (d.files.map encStr) ++ " " ++ encList (d.commands.map encStr) ++ " " ++ encList (d.disabled.map encStr)
+    | _, _, _, _, _ => "bad-op"
   | ["acc", r, p] =>
     match decStr r, decStr p with
     | some r, some p => (if accept r p then "1" else "0") ++ (if acceptOld r p then "1" else "0")
